@@ -9,6 +9,8 @@ package main
 //	c09NeedsChecksLive   DB.NeedsTable reads the checkpoint list and the live level list (1), checkpoints only (0)
 //	c09NeedsLiveFirst    … and reads the live level list before the checkpoint list (1) or after it (0)
 //	c09CkptUsesLevels    Checkpoint.IncludesTable consults cp.Levels when there is no URI index (1) or only the index (0)
+//	c09NextWalIsMax      Checkpoint.NextWALID is the maximum WAL id over all handles plus one (1), or taken from one
+//	                     handle by position (0)
 //	c09LoadedGuarded     the cleanup of sst.NewTableFromDocument calls p.deleteFunc only inside `if canDelete {…}` (1)
 //	c09CreatedDeletes    the cleanup of sst.NewTable calls the delete function (1)
 //
@@ -52,27 +54,52 @@ func c09Facts(fc *facts) {
 	if own == nil || own.Body == nil {
 		problem("OperatorPartition.ExclusivelyOwnsTable not found")
 	} else {
-		guard, finalOK := false, false
+		// error ⇒ keep, recognised by structure (names of locals do not matter):
+		//   1  a top-level `if X != nil { return false, X }` before the last statement, and the last statement returns
+		//      `(<anything>, nil)` — or the defect-free early-return form ending in `return true, nil`
+		//   0  the last statement returns `(!N, X)` with an error variable X and no such guard (the original defect)
+		//   anything else: shape not recognised (the value is kept; the C09 correspondence observes the rule directly)
+		guard := false
 		stmts := own.Body.List
-		for i, st := range stmts {
-			if is, ok := st.(*ast.IfStmt); ok && is.Init == nil && c09IsErrNotNil(is.Cond) && len(is.Body.List) == 1 {
-				if rs, ok := is.Body.List[0].(*ast.ReturnStmt); ok && len(rs.Results) == 2 && selName(rs.Results[0]) == "false" {
-					guard = true
+		for _, st := range stmts {
+			is, ok := st.(*ast.IfStmt)
+			if !ok || is.Init != nil || len(is.Body.List) != 1 {
+				continue
+			}
+			cond, ok := is.Cond.(*ast.BinaryExpr)
+			if !ok || cond.Op != token.NEQ {
+				continue
+			}
+			x := selName(cond.X)
+			if selName(cond.Y) != "nil" || x == "" {
+				if selName(cond.X) == "nil" {
+					x = selName(cond.Y)
+				} else {
+					continue
 				}
 			}
-			if i == len(stmts)-1 {
-				if rs, ok := st.(*ast.ReturnStmt); ok && len(rs.Results) == 2 {
-					if u, ok := rs.Results[0].(*ast.UnaryExpr); ok && u.Op == token.NOT && selName(u.X) == "neighborNeedsTable" {
-						finalOK = true
-					}
+			if rs, ok := is.Body.List[0].(*ast.ReturnStmt); ok && len(rs.Results) == 2 && selName(rs.Results[0]) == "false" && selName(rs.Results[1]) == x {
+				guard = true
+			}
+		}
+		lastNil, lastNegErr := false, false
+		if len(stmts) > 0 {
+			if rs, ok := stmts[len(stmts)-1].(*ast.ReturnStmt); ok && len(rs.Results) == 2 {
+				if selName(rs.Results[1]) == "nil" {
+					lastNil = true
+				} else if u, ok := rs.Results[0].(*ast.UnaryExpr); ok && u.Op == token.NOT && selName(rs.Results[1]) != "" {
+					lastNegErr = true
 				}
 			}
 		}
-		v := uint64(0)
-		if guard {
-			v = 1
+		switch {
+		case guard && lastNil:
+			fc.set("c09OwnsErrKeeps", 1, true, "")
+		case !guard && lastNegErr:
+			fc.set("c09OwnsErrKeeps", 0, true, "")
+		default:
+			fc.set("c09OwnsErrKeeps", 0, false, "ExclusivelyOwnsTable error guard `if X != nil { return false, X }` … `return _, nil`")
 		}
-		fc.set("c09OwnsErrKeeps", v, finalOK, "ExclusivelyOwnsTable final `return !neighborNeedsTable, …`")
 
 		// the query context: `ctx, cancel := context.WithCancel(context.Background())` and nothing in the function
 		// that gives it (or any derived context) a deadline
@@ -94,43 +121,66 @@ func c09Facts(fc *facts) {
 		})
 		fc.set("c09OwnsNoDeadline", noDeadline, ctxSeen || noDeadline == 0, "ExclusivelyOwnsTable `context.WithCancel(context.Background())`")
 
-		// the query goroutine: `needsTable, err := neighbor.NeedsTable(..)` is sent on as it is — `err` (and
-		// `needsTable`) are never assigned again
-		errPassed, sendSeen := uint64(1), false
+		// the query goroutine: the two results of `<neighbor>.NeedsTable(..)` are sent on as they are — neither is
+		// assigned again inside the goroutine, and the only send carries exactly these two variables in this order
+		// (names of the variables, of the channel and of the result type do not matter)
+		errPassed, shapeOK := uint64(1), false
 		ast.Inspect(own.Body, func(x ast.Node) bool {
 			fl, ok := x.(*ast.FuncLit)
 			if !ok {
 				return true
 			}
+			var rNeeds, rErr string
+			ast.Inspect(fl.Body, func(y ast.Node) bool {
+				if as, ok := y.(*ast.AssignStmt); ok && as.Tok == token.DEFINE && len(as.Lhs) == 2 && len(as.Rhs) == 1 {
+					if c, ok := as.Rhs[0].(*ast.CallExpr); ok {
+						if sel, ok := c.Fun.(*ast.SelectorExpr); ok && sel.Sel.Name == "NeedsTable" {
+							rNeeds, rErr = selName(as.Lhs[0]), selName(as.Lhs[1])
+						}
+					}
+				}
+				return true
+			})
+			if rNeeds == "" || rErr == "" {
+				return false // not the query goroutine
+			}
+			sends := 0
 			ast.Inspect(fl.Body, func(y ast.Node) bool {
 				switch n := y.(type) {
 				case *ast.AssignStmt:
-					for _, l := range n.Lhs {
-						if name := selName(l); (name == "err" || name == "needsTable") && n.Tok == token.ASSIGN {
-							errPassed = 0
-						}
-					}
-					if n.Tok == token.DEFINE {
+					if n.Tok != token.DEFINE {
 						for _, l := range n.Lhs {
-							if selName(l) == "err" {
-								if c, ok := n.Rhs[0].(*ast.CallExpr); !ok || selName(c.Fun) != "neighbor.NeedsTable" {
-									errPassed = 0
-								}
+							if name := selName(l); name == rNeeds || name == rErr {
+								errPassed = 0
 							}
 						}
 					}
 				case *ast.SendStmt:
-					if cl, ok := n.Value.(*ast.CompositeLit); ok && len(cl.Elts) == 2 && selName(cl.Elts[0]) == "needsTable" && selName(cl.Elts[1]) == "err" {
-						sendSeen = true
-					} else {
+					sends++
+					ok := false
+					if cl, isLit := n.Value.(*ast.CompositeLit); isLit && len(cl.Elts) == 2 {
+						e0, e1 := cl.Elts[0], cl.Elts[1]
+						if kv, isKV := e0.(*ast.KeyValueExpr); isKV {
+							e0 = kv.Value
+						}
+						if kv, isKV := e1.(*ast.KeyValueExpr); isKV {
+							e1 = kv.Value
+						}
+						a, b := selName(e0), selName(e1)
+						ok = (a == rNeeds && b == rErr) || (a == rErr && b == rNeeds)
+					}
+					if !ok {
 						errPassed = 0
 					}
 				}
 				return true
 			})
+			if sends == 1 {
+				shapeOK = true
+			}
 			return false
 		})
-		fc.set("c09OwnsErrPassed", errPassed, sendSeen || errPassed == 0, "ExclusivelyOwnsTable goroutine `results <- result{needsTable, err}`")
+		fc.set("c09OwnsErrPassed", errPassed, shapeOK || errPassed == 0, "ExclusivelyOwnsTable goroutine sending the results of NeedsTable on unchanged")
 	}
 
 	// --- DB.NeedsTable ---
@@ -141,6 +191,10 @@ func c09Facts(fc *facts) {
 	if nt == nil || nt.Body == nil {
 		problem("DB.NeedsTable not found")
 	} else {
+		recv := "db"
+		if nt.Recv != nil && len(nt.Recv.List) == 1 && len(nt.Recv.List[0].Names) == 1 {
+			recv = nt.Recv.List[0].Names[0].Name
+		}
 		var reads []ast.Expr
 		okShape := true
 		var flatten func(e ast.Expr)
@@ -190,12 +244,12 @@ func c09Facts(fc *facts) {
 		for _, e := range reads {
 			kind := ""
 			if c, ok := e.(*ast.CallExpr); ok {
-				if selName(c.Fun) == "db.checkpoints.IncludesTable" {
+				if selName(c.Fun) == recv+".checkpoints.IncludesTable" {
 					kind = "ckpt"
 				} else if sel, ok := c.Fun.(*ast.SelectorExpr); ok && sel.Sel.Name == "IncludesTable" {
-					if inner, ok := sel.X.(*ast.CallExpr); ok && selName(inner.Fun) == "db.currentSSTables" {
+					if inner, ok := sel.X.(*ast.CallExpr); ok && selName(inner.Fun) == recv+".currentSSTables" {
 						kind = "live"
-					} else if selName(sel.X) == "db.sstables" {
+					} else if selName(sel.X) == recv+".sstables" {
 						kind = "live"
 					}
 				}
@@ -232,18 +286,78 @@ func c09Facts(fc *facts) {
 	if inc == nil || inc.Body == nil {
 		problem("Checkpoint.IncludesTable not found")
 	} else {
-		v := uint64(0)
-		if c09CallsIn(inc.Body, "cp.Levels.IncludesTable") >= 1 {
-			v = 1
-		}
-		usesIndex := false
+		// 1: some `<cp>.Levels.IncludesTable(..)` call; 0: only the URI index is consulted and the level list is not
+		// touched at all; a body that walks the level list some other way is not recognised (value kept)
+		levelsCall, levelsRef, usesIndex := false, false, false
 		ast.Inspect(inc.Body, func(x ast.Node) bool {
-			if ix, ok := x.(*ast.IndexExpr); ok && selName(ix.X) == "cp.tableURIset" {
-				usesIndex = true
+			switch n := x.(type) {
+			case *ast.CallExpr:
+				if sel, ok := n.Fun.(*ast.SelectorExpr); ok && sel.Sel.Name == "IncludesTable" {
+					if in, ok := sel.X.(*ast.SelectorExpr); ok && in.Sel.Name == "Levels" {
+						levelsCall = true
+					}
+				}
+			case *ast.SelectorExpr:
+				if n.Sel.Name == "Levels" {
+					levelsRef = true
+				}
+			case *ast.IndexExpr:
+				if sel, ok := n.X.(*ast.SelectorExpr); ok && sel.Sel.Name == "tableURIset" {
+					usesIndex = true
+				}
 			}
 			return true
 		})
-		fc.set("c09CkptUsesLevels", v, usesIndex || v == 1, "Checkpoint.IncludesTable (index lookup and/or level list)")
+		switch {
+		case levelsCall:
+			fc.set("c09CkptUsesLevels", 1, true, "")
+		case usesIndex && !levelsRef:
+			fc.set("c09CkptUsesLevels", 0, true, "")
+		default:
+			fc.set("c09CkptUsesLevels", 0, false, "Checkpoint.IncludesTable (URI index lookup and/or <cp>.Levels.IncludesTable)")
+		}
+	}
+
+	// --- Checkpoint.NextWALID ---
+	// 1: the result is one more than the maximum over ALL handles (a loop over <cp>.WALs folding max, or slices.MaxFunc);
+	// 0: it is derived from one handle picked by position (first / last); anything else is not recognised.
+	// Hard fact (numbering of files yet to be written): the recogniser looks at structure only.
+	nw0 := findFunc(cf, "Checkpoint", "NextWALID")
+	if nw0 == nil || nw0.Body == nil {
+		problemFor([]string{"c09NextWalIsMax"}, "Checkpoint.NextWALID not found")
+	} else {
+		rangesWALs, usesMax, indexed := false, false, false
+		ast.Inspect(nw0.Body, func(x ast.Node) bool {
+			switch n := x.(type) {
+			case *ast.RangeStmt:
+				if sel, ok := n.X.(*ast.SelectorExpr); ok && sel.Sel.Name == "WALs" {
+					rangesWALs = true
+				}
+			case *ast.CallExpr:
+				switch selName(n.Fun) {
+				case "max", "slices.MaxFunc", "slices.Max":
+					usesMax = true
+				}
+			case *ast.BinaryExpr:
+				if n.Op == token.GTR || n.Op == token.LSS || n.Op == token.GEQ || n.Op == token.LEQ {
+					// a hand-written maximum: `if h.ID > maxID { maxID = h.ID }`
+					usesMax = usesMax || rangesWALs
+				}
+			case *ast.IndexExpr:
+				if sel, ok := n.X.(*ast.SelectorExpr); ok && sel.Sel.Name == "WALs" {
+					indexed = true
+				}
+			}
+			return true
+		})
+		switch {
+		case usesMax && !indexed && (rangesWALs || c09CallsIn(nw0.Body, "slices.MaxFunc") > 0):
+			fc.set("c09NextWalIsMax", 1, true, "")
+		case indexed && !usesMax:
+			fc.set("c09NextWalIsMax", 0, true, "")
+		default:
+			fc.set("c09NextWalIsMax", 0, false, "Checkpoint.NextWALID (maximum WAL id over all handles, plus one)")
+		}
 	}
 
 	// --- table cleanups ---
@@ -252,37 +366,84 @@ func c09Facts(fc *facts) {
 	if nd == nil || nd.Body == nil {
 		problem("sst.NewTableFromDocument not found")
 	} else {
-		total := c09CallsIn(nd.Body, "p.deleteFunc")
-		guarded := 0
+		// inside the cleanup closure: `X, _ := <..>.ExclusivelyOwnsTable(..)`, and every call of the delete function
+		// (a niladic call of a field of the closure's parameter) sits inside an `if X { … }`
+		total, guarded, found := 0, 0, false
 		ast.Inspect(nd.Body, func(x ast.Node) bool {
-			if is, ok := x.(*ast.IfStmt); ok && is.Init == nil && selName(is.Cond) == "canDelete" {
-				guarded += c09CallsIn(is.Body, "p.deleteFunc")
+			c, ok := x.(*ast.CallExpr)
+			if !ok || selName(c.Fun) != "runtime.AddCleanup" || len(c.Args) != 3 {
+				return true
 			}
-			return true
+			fl, ok := c.Args[1].(*ast.FuncLit)
+			if !ok || fl.Type.Params == nil || len(fl.Type.Params.List) != 1 || len(fl.Type.Params.List[0].Names) != 1 {
+				return true
+			}
+			param := fl.Type.Params.List[0].Names[0].Name
+			can := ""
+			ast.Inspect(fl.Body, func(y ast.Node) bool {
+				if as, ok := y.(*ast.AssignStmt); ok && len(as.Lhs) == 2 && len(as.Rhs) == 1 {
+					if cc, ok := as.Rhs[0].(*ast.CallExpr); ok {
+						if sel, ok := cc.Fun.(*ast.SelectorExpr); ok && sel.Sel.Name == "ExclusivelyOwnsTable" {
+							can = selName(as.Lhs[0])
+						}
+					}
+				}
+				return true
+			})
+			isDelete := func(cc *ast.CallExpr) bool {
+				sel, ok := cc.Fun.(*ast.SelectorExpr)
+				return ok && len(cc.Args) == 0 && selName(sel.X) == param
+			}
+			count := func(n ast.Node) int {
+				k := 0
+				ast.Inspect(n, func(y ast.Node) bool {
+					if cc, ok := y.(*ast.CallExpr); ok && isDelete(cc) {
+						k++
+					}
+					return true
+				})
+				return k
+			}
+			total = count(fl.Body)
+			ast.Inspect(fl.Body, func(y ast.Node) bool {
+				if is, ok := y.(*ast.IfStmt); ok && is.Init == nil && can != "" && selName(is.Cond) == can {
+					guarded += count(is.Body)
+				}
+				return true
+			})
+			found = can != "" && total >= 1
+			return false
 		})
 		v := uint64(0)
-		if total >= 1 && guarded == total {
+		if found && guarded == total {
 			v = 1
 		}
-		fc.set("c09LoadedGuarded", v, total >= 1, "NewTableFromDocument cleanup calling p.deleteFunc")
+		fc.set("c09LoadedGuarded", v, found, "NewTableFromDocument cleanup: ExclusivelyOwnsTable result guarding the delete call")
 	}
 	nw := findFunc(tf, "", "NewTable")
 	if nw == nil || nw.Body == nil {
 		problem("sst.NewTable not found")
 	} else {
-		v := uint64(0)
+		// the cleanup closure calls its parameter, which is `<file>.CreateDeleteFunc()` (1); it has that parameter and
+		// does not call it (0); anything else is not recognised (value kept)
+		seen, calls := false, false
 		ast.Inspect(nw.Body, func(x ast.Node) bool {
 			if c, ok := x.(*ast.CallExpr); ok && selName(c.Fun) == "runtime.AddCleanup" && len(c.Args) == 3 {
-				if fl, ok := c.Args[1].(*ast.FuncLit); ok && fl.Type.Params != nil && len(fl.Type.Params.List) == 1 && len(fl.Type.Params.List[0].Names) == 1 {
-					if c09CallsIn(fl.Body, fl.Type.Params.List[0].Names[0].Name) >= 1 && selName(c.Args[2].(ast.Expr)) == "" {
-						if inner, ok := c.Args[2].(*ast.CallExpr); ok && selName(inner.Fun) == "file.CreateDeleteFunc" {
-							v = 1
-						}
+				fl, ok := c.Args[1].(*ast.FuncLit)
+				inner, ok2 := c.Args[2].(*ast.CallExpr)
+				if ok && ok2 && fl.Type.Params != nil && len(fl.Type.Params.List) == 1 && len(fl.Type.Params.List[0].Names) == 1 {
+					if sel, ok := inner.Fun.(*ast.SelectorExpr); ok && sel.Sel.Name == "CreateDeleteFunc" {
+						seen = true
+						calls = c09CallsIn(fl.Body, fl.Type.Params.List[0].Names[0].Name) >= 1
 					}
 				}
 			}
 			return true
 		})
-		fc.set("c09CreatedDeletes", v, true, "")
+		v := uint64(0)
+		if calls {
+			v = 1
+		}
+		fc.set("c09CreatedDeletes", v, seen, "NewTable cleanup `runtime.AddCleanup(t, func(f ..) { f() }, <file>.CreateDeleteFunc())`")
 	}
 }
